@@ -322,9 +322,75 @@ type COpts struct {
 	TimeKind  int // 0 default (now), 1 explicit, 2 deterministic option
 	Time      int64
 	DIs       []DInput
+	// the order in which the options are passed to the library (a permutation of
+	// "det", "launch", "id", "time", "cap", "dis")
+	Order []string
 	// filled in by the executor: what the implementation used
 	EffID   [16]byte
 	EffTime int64
+	// clock reading and random bytes observed (inputs of the model)
+	ObsNow int64
+	ObsRnd [16]byte
+}
+
+// Expected resolves the options in the order given, independently of the library: the ID and
+// time the image must carry, when the options determine them.
+func (c COpts) Expected() (idKnown bool, id [16]byte, timeKnown bool, t int64) {
+	for _, k := range c.Order {
+		switch k {
+		case "det":
+			if c.IDKind == 2 || c.TimeKind == 2 {
+				idKnown, id, timeKnown, t = true, [16]byte{}, true, ZeroTime
+			}
+		case "id":
+			if c.IDKind == 1 {
+				idKnown, id = true, c.ID
+			}
+		case "time":
+			if c.TimeKind == 1 {
+				timeKnown, t = true, c.Time
+			}
+		}
+	}
+	return
+}
+
+// OptsCoq renders the options in the order given, as the model's list copt.
+func (c COpts) OptsCoq() string {
+	var parts []string
+	for _, k := range c.Order {
+		switch k {
+		case "det":
+			if c.IDKind == 2 || c.TimeKind == 2 {
+				parts = append(parts, "CODeterministic")
+			}
+		case "launch":
+			if c.LaunchSet {
+				parts = append(parts, "COWithLaunch "+CoqBytes([]byte(c.Launch)))
+			}
+		case "id":
+			if c.IDKind == 1 {
+				parts = append(parts, "COWithID "+CoqBytes(c.ID[:]))
+			}
+		case "time":
+			if c.TimeKind == 1 {
+				parts = append(parts, "COWithTime "+CoqZ(c.Time))
+			}
+		case "cap":
+			if c.CapSet {
+				parts = append(parts, "COWithCapacity "+CoqZ(c.Cap))
+			}
+		case "dis":
+			if len(c.DIs) > 0 {
+				var dis []string
+				for _, d := range c.DIs {
+					dis = append(dis, d.Coq())
+				}
+				parts = append(parts, "COWithDescriptors ["+strings.Join(dis, ";\n    ")+"]")
+			}
+		}
+	}
+	return "[" + strings.Join(parts, "; ") + "]"
 }
 
 func (c COpts) EffCap() int64 {
@@ -457,7 +523,7 @@ func (c Case) Coq() string {
 	}
 	var init string
 	if c.Create != nil {
-		init = "(ICreate " + c.Create.Coq() + ")"
+		init = fmt.Sprintf("(ICreateO %s %s %s)", c.Create.OptsCoq(), CoqZ(c.Create.ObsNow), CoqBytes(c.Create.ObsRnd[:]))
 	} else {
 		init = "(ILoad " + CoqRLE(c.LoadBytes) + ")"
 	}
